@@ -328,6 +328,32 @@ def extract(repo):
         'rerecord:' + ('update_deadline' if ('DeferredEventData::new' in rerecord and 'update_deadline' in rerecord) else 'none'),
         'not-due:' + ('update_deadline' if 'update_deadline' in tail else 'none'),
         'defer:' + ('update_deadline' if last_if >= 0 and 'update_deadline' in dd[last_if:] and dd[:last_if].count('update_deadline') == 0 else 'conditional-or-none')]
+    # the background sync: the flag is taken by compare-exchange, released by a guard object that lives in an inner
+    # scope, and AFTER that scope the active blob is examined again inside a loop (the repair of E23)
+    body = ''
+    for mm in re.finditer(r"\bfn\s+fsyncdata\b", sc):
+        b = fn_body(sc[mm.start():], 'fsyncdata', 'in storage/core.rs')
+        if 'fsync_in_progress' in b:
+            body = b
+    if not body:
+        raise Fail('Inner::fsyncdata (the one that handles fsync_in_progress) not found')
+    mloop = re.search(r"\bloop\s*\{", body)
+    mguard = re.search(r"let\s+_flag\s*=\s*ResetableFlag", body)
+    shape = []
+    if mloop and mguard and mloop.start() < mguard.start():
+        # find the end of the block that holds the guard
+        depth, j, start = 0, mguard.start(), None
+        k = body.rfind('{', 0, mguard.start())
+        depth, j = 1, k + 1
+        while depth and j < len(body):
+            depth += {'{': 1, '}': -1}.get(body[j], 0)
+            j += 1
+        after = body[j:]
+        shape = ['loop', 'guard-in-inner-scope',
+                 'recheck-after-release' if 'too_many_dirty_bytes' in after and re.search(r"return\s+Ok\(\(\)\)", after) else 'no-recheck']
+    else:
+        shape = ['single-pass']
+    g['BACKGROUND_SYNC_SHAPE'] = shape + ['cas' if 'compare_exchange(false, true' in body else 'no-cas']
     # the writer's rotation test
     body = fn_body(sc, 'should_update_active_blob', 'in storage/core.rs')
     m1 = re.search(r'active_blob\.file_size\(\)\s*(>=|>|==|<=|<)\s*config_max_size', body)
